@@ -39,6 +39,17 @@ def unit(name: str, filters: tuple[str, ...], gen: Callable[..., dict[str, Any]]
     return deco
 
 
+# where a template can bind a variable other than render data
+LOCAL_SITES = {
+    "assign": "{% assign t = tv %}OUT",
+    "capture": "{% capture t %}{{ tv }}{% endcapture %}OUT",
+    "for": "{% for t in tvs %}OUT{% endfor %}",
+    "with": "{% with t: tv %}OUT{% endwith %}",
+    "macro": "{% macro m t %}OUT{% endmacro %}{% call m tv %}",
+    "nested": "{% for q in tvs %}{% if true %}{% assign t = q %}{% endif %}{% endfor %}OUT",
+}
+
+
 class Runner:
     def __init__(self, ctx: Any, eng: Engine | None = None):
         self.ctx = ctx
@@ -77,6 +88,45 @@ class Runner:
         if self.recording:
             self.ctx.count("template_applications")
         return self._guard(owner, res, before, data, cls, "template:" + chain)
+
+    def TL(self, owner: str, site: str, chain: str, value: Any, cls: str = "", **data: Any) -> Res:
+        """`{{ x | <chain> | json }}` where the chain refers to a variable `t` that is bound to
+        *value* by a template construct (assign, capture, enclosing for, with, macro argument)
+        instead of being render data."""
+        import json as _json
+
+        d = dict(data)
+        d["tv"] = value
+        d["tvs"] = [value]
+        src = LOCAL_SITES[site].replace("OUT", "{{ x | " + chain + " | json }}")
+        before = skey(d)
+        res = self.eng.render(src, d)
+        if res.ok:
+            try:
+                res = Res("ok", _json.loads(res.value))
+            except ValueError:
+                res = Res("foreign", None, "UndecodableOutput", res.value[:200])
+        if self.recording:
+            self.ctx.count("template_applications")
+            self.ctx.count("template_local_variable_applications")
+            self.ctx.seen("local_binding_sites", site)
+        return self._guard(owner, res, before, d, cls, f"template:{site}:{chain}")
+
+    def locals_agree(self, owner: str, chain_t: str, ref: Res, value: Any, law: str,
+                     sites: tuple[str, ...] | None = None, **data: Any) -> None:
+        """The chain (which mentions `t`) must give the same result as *ref* (obtained with the
+        value passed as render data) wherever `t` is bound."""
+        if ref.kind == "foreign":
+            return
+        for site in sites or tuple(LOCAL_SITES):
+            if site == "capture" and not isinstance(value, str):
+                continue  # capture stringifies
+            r = self.TL(owner, site, chain_t, value, **data)
+            if r.kind == "foreign":
+                continue
+            ok = r.kind == ref.kind and (not r.ok or skey(r.value) == skey(ref.value))
+            self.law(owner, law, ok, site, None if ok else {"chain": chain_t, "t": jn(value), "bound_by": site,
+                                                         "with_local": r.brief(), "with_render_data": ref.brief()})
 
     def D(self, owner: str, name: str, x: Any, *args: Any, cls: str = "", **kw: Any) -> Res:
         data = (x, args, kw)
